@@ -51,6 +51,71 @@ theorem frame_length_eq (pcode : Int) (license pl : Bytes) :
     (frame pcode license pl).length = 22 + pl.length := by
   simp [frame]; omega
 
+/-! ### a connection's byte stream -/
+
+/-- what a receiver does with a connection: parse frame after frame; what does not parse as a frame start is
+    left over (`fuel` bounds the number of frames) -/
+def stepStream (next : Bytes → List FrameParts × Bytes) (bs : Bytes) : List FrameParts × Bytes :=
+  match P.run parseFrame bs with
+  | none => ([], bs)
+  | some (fr, rest) => (fr :: (next rest).1, (next rest).2)
+
+def parseStream : Nat → Bytes → List FrameParts × Bytes
+  | 0, bs => ([], bs)
+  | f+1, bs => stepStream (parseStream f) bs
+
+theorem stepStream_none (next : Bytes → List FrameParts × Bytes) (bs : Bytes) (h : P.run parseFrame bs = none) :
+    stepStream next bs = ([], bs) := by
+  unfold stepStream; rw [h]
+
+theorem stepStream_some (next : Bytes → List FrameParts × Bytes) (bs rest : Bytes) (fr : FrameParts)
+    (h : P.run parseFrame bs = some (fr, rest)) :
+    stepStream next bs = (fr :: (next rest).1, (next rest).2) := by
+  unfold stepStream; rw [h]
+
+/-- one sent frame: project code, license text, payload -/
+structure Sent where
+  pcode : Int
+  license : Bytes
+  payload : Bytes
+
+def Sent.wf (x : Sent) : Prop := inRange 8 x.pcode ∧ x.payload.length < 2147483648
+def Sent.bytes (x : Sent) : Bytes := frame x.pcode x.license x.payload
+def Sent.parts (x : Sent) : FrameParts := ⟨netSrcOneWay, netSrcVersion, x.pcode, hash64 x.license, x.payload⟩
+
+def streamOf : List Sent → Bytes
+  | [] => []
+  | x :: xs => x.bytes ++ streamOf xs
+
+/-- a stream of whole frames followed by bytes `q` that are not a frame start parses into exactly those
+    frames, in order, and leaves `q` -/
+theorem parseStream_whole (xs : List Sent) (q : Bytes) (fuel : Nat) (hf : xs.length ≤ fuel)
+    (hw : ∀ x ∈ xs, x.wf) (hq : P.run parseFrame q = none) :
+    parseStream fuel (streamOf xs ++ q) = (xs.map Sent.parts, q) := by
+  induction xs generalizing fuel with
+  | nil =>
+    cases fuel with
+    | zero => rfl
+    | succ f =>
+      show stepStream (parseStream f) (streamOf [] ++ q) = _
+      rw [show streamOf [] ++ q = q from rfl, stepStream_none _ _ hq]
+      rfl
+  | cons x xs ih =>
+    cases fuel with
+    | zero => simp at hf
+    | succ f =>
+      have hx := hw x (by simp)
+      have h1 := run_parseFrame x.pcode x.license x.payload (streamOf xs ++ q) hx.1 hx.2
+      have ih' := ih f (by simp at hf; omega) (fun y hy => hw y (by simp [hy]))
+      show stepStream (parseStream f) (streamOf (x :: xs) ++ q) = _
+      have e : streamOf (x :: xs) ++ q = frame x.pcode x.license x.payload ++ (streamOf xs ++ q) := by
+        simp [streamOf, Sent.bytes]
+      rw [e, stepStream_some _ _ _ _ h1, ih']
+      rfl
+
+theorem run_parseFrame_nil : P.run parseFrame [] = none := by
+  simp [parseFrame, P.bind, rdU, P.run, hasAtLeast]
+
 /-! ### common header -/
 
 def WFHdr (h : Hdr) : Prop :=
